@@ -154,6 +154,20 @@ func c13Item(c *ctx, k ref.Kind, n int) {
 		c.Violation(fmt.Sprintf("C13/item/encoding/%s/lenbytes=%d", k, lb), fmt.Sprintf("%s x %d: ToBytes() has %d bytes, prefix %x; want %d bytes, prefix %x", k, n, len(b), clipB(b), total, hdr), cs)
 		return
 	}
+	if total <= 4096 {
+		// the bytes handed out are the caller's: wiped, and the item encoded again, the header is the header again
+		keep := append([]byte(nil), b...)
+		for i := range b {
+			b[i] = 0
+		}
+		again := node.ToBytes()
+		inList := ast.NewListNode(node, node).ToBytes()
+		if !bytes.Equal(again, keep) || len(inList) != 2+2*len(keep) || !bytes.Equal(inList[2:2+len(keep)], keep) {
+			c.Violation(fmt.Sprintf("C13/item/encoding-after-the-caller-wiped-the-result/%s", k), fmt.Sprintf("%s x %d: first ToBytes() %x; after the caller zeroed that slice ToBytes() gives %x and inside a list %x", k, n, clipB(keep), clipB(again), clipB(inList)), cs)
+			return
+		}
+		b = keep
+	}
 	// decoder read-back
 	m := &ref.Msg{Stream: 1, Function: 1, W: 0, Dir: "H<->E", Session: 7}
 	full := append(ref.EncodeMessage(m), b...)
@@ -304,6 +318,32 @@ func runC13(c *ctx) {
 			c.Violation("C13/decoder/mixed-length-fields", fmt.Sprintf("a list of items with payload sizes %v does not decode back (built: %s, %d bytes, ok=%v)", sizes, o, len(b), ok), c13Case{"mixed", "B+A+U2", sizes[0]})
 		}
 	}
+	// argument forms a factory might also take (a []byte for binary, a string of digits, a slice of ints): whatever is
+	// accepted encodes with a correct length field and is within the limit; over the limit nothing is constructed
+	for _, total := range []int{5, 300, ref.MaxBytes, ref.MaxBytes + 1} {
+		forms := map[string]func() ast.ItemNode{
+			"binary<-[]byte":        func() ast.ItemNode { return ast.NewBinaryNode(make([]byte, total)) },
+			"binary<-two-[]byte":    func() ast.ItemNode { return ast.NewBinaryNode(make([]byte, total/2), make([]byte, total-total/2)) },
+			"binary<-[]byte+values": func() ast.ItemNode { return ast.NewBinaryNode(make([]byte, total-1), 7) },
+			"binary<-[]interface{}": func() ast.ItemNode { return ast.NewBinaryNode(make([]interface{}, total)) },
+			"uint<-[]uint8":         func() ast.ItemNode { return ast.NewUintNode(1, make([]uint8, total)) },
+			"int<-[]int8":           func() ast.ItemNode { return ast.NewIntNode(1, make([]int8, total)) },
+			"boolean<-[]bool":       func() ast.ItemNode { return ast.NewBooleanNode(make([]bool, total)) },
+		}
+		for name, f := range forms {
+			var node ast.ItemNode
+			o := real.Try(func() { node = f() })
+			c.NoteBulk(1, 1)
+			c.Class("slice-argument-forms")
+			if o.Panicked {
+				continue // not an accepted argument form (the case on this tree)
+			}
+			b := node.ToBytes()
+			if total > ref.MaxBytes || len(b) == 0 || node.Size() != total {
+				c.Violation("C13/item/slice-argument-form/"+name, fmt.Sprintf("%s with %d elements in all was constructed: Size()=%d, ToBytes() has %d bytes", name, total, node.Size(), len(b)), c13Case{"form", name, total})
+			}
+		}
+	}
 	// a long run over many different (format, size) shapes, twice: the header an item gets the second time round is the
 	// header it got the first time (whatever the encoder remembers about shapes it has seen)
 	for pass := 0; pass < 2; pass++ {
@@ -414,7 +454,7 @@ func runC13(c *ctx) {
 			c.Violation("C13/fill/encoding", fmt.Sprintf("filled ASCII of %d characters encodes to %d bytes", n, len(filled.ToBytes())), c13Case{"fill", "A", n})
 		}
 	}
-	c.Required = []string{"mixed-length-fields", "shapes-encoded-twice-in-a-long-run", "items-at-the-limit-inside-a-list", "list-at-the-limit-by-expansion", "list-limit-with-variable-last", "earlier-encoding-re-read", "ascii-fill-at-the-limit", "item/beyond-limit", "item/lenbytes=3/L", "item/lenbytes=3/A", "item/lenbytes=3/F8", "item/lenbytes=2/U2", "header-sweep-points"}
+	c.Required = []string{"mixed-length-fields", "slice-argument-forms", "shapes-encoded-twice-in-a-long-run", "items-at-the-limit-inside-a-list", "list-at-the-limit-by-expansion", "list-limit-with-variable-last", "earlier-encoding-re-read", "ascii-fill-at-the-limit", "item/beyond-limit", "item/lenbytes=3/L", "item/lenbytes=3/A", "item/lenbytes=3/F8", "item/lenbytes=2/U2", "header-sweep-points"}
 }
 
 func replayC13(c *ctx, raw json.RawMessage) {
